@@ -1,7 +1,24 @@
 """C19 worker: histories of copy-producing calls and in-place edits over 2-5 live handles
 (BQM float64/float32/object, QM, CQM, SampleSet, Variables, spin/binary views, CQM expression views).
 Every handle is snapshotted bit-for-bit after every step; snapshots are interned to small ids and the
-store model in Coq says what each handle must show."""
+store model in Coq says what each handle must show.
+
+Coverage (clause of the property -> kinds / calls):
+  copy(), copy.copy, copy.deepcopy ............ every kind (copy.copy only where the class defines __copy__; a DQM has no deepcopy)
+  pickling (BQM, SampleSet, Variables) ........ kinds bqm*, ss, vars (+ BinaryPolynomial)
+  construction from another model ............. BQM(bqm), QM.from_bqm, Variables(v), BinaryPolynomial(p), SampleSet.from_samples(ss),
+                                                DQM.from_numpy_vectors(to_numpy_vectors)
+  arithmetic operators ........................ bqm*, qm (incl. neutral operands)
+  CQM add with copy=True / False .............. acts "move", "discrete"
+  inplace=False methods ....................... relabel_variables, relabel_variables_as_integers, change_vartype, spin_to_binary,
+                                                fix_variables (bqm / qm / cqm), SampleSet.relabel_variables / change_vartype (kind ss and,
+                                                on future-backed sets before / after resolution, kind ssalias), BinaryPolynomial.relabel_variables,
+                                                to_spin / to_binary(copy=True), DQM.relabel_variables / relabel_variables_as_integers
+  SampleSet builders .......................... slice, truncate, lowest, filter, aggregate, copy, concatenate (single, [a, a], several live
+                                                sets), keep / drop / append_variables, append_data_vectors
+  documented aliases .......................... spin / binary views, CQM expression views (act "view")
+  later in-place edits on either side ......... act "edit" through any handle incl. views; nested info values
+Not reached: CQM / QM pickling (not claimed by the property), DQM with shared case labels, SampleSet builders on future-backed sets."""
 import copy
 import json
 import pickle
@@ -26,7 +43,14 @@ DY = [Fraction(1, 2), Fraction(-1), Fraction(3, 2), Fraction(2), Fraction(-1, 4)
 
 
 def gen_case(rng, tier):
-    kind = rng.choice(['bqm64', 'bqm64', 'bqm32', 'bqmobj', 'qm', 'cqm', 'cqm', 'ss', 'ss', 'ss', 'vars'])
+    if rng.random() < 0.07:
+        # sample sets on ONE future (its result object, from_future handles, whatever relabel_variables /
+        # change_vartype return, before and after the result exists): record sharing is observed after every event
+        import w_c14
+        c = w_c14.gen_alias(rng, tier)
+        c["kind"] = "ssalias"
+        return c
+    kind = rng.choice(['bqm64', 'bqm64', 'bqm32', 'bqmobj', 'qm', 'cqm', 'cqm', 'ss', 'ss', 'ss', 'vars', 'poly', 'dqm'])
     n = rng.randint(2, 7) if tier == 'quick' else rng.randint(2, 14)
     return {"kind": kind, "seed": rng.randint(0, 10 ** 9), "steps": [rng.randint(0, 10 ** 9) for _ in range(n)]}
 
@@ -82,12 +106,28 @@ def snap(obj, kind):
                 "info": json.dumps(obj.info, sort_keys=True, default=str), "vt": obj.vartype.name}
     if kind == 'vars':
         return {"t": "vars", "l": [lab(v) for v in obj], "n": len(obj)}
+    if kind == 'poly':
+        return {"t": "poly", "vt": obj.vartype.name, "vars": sorted(lab(v) for v in obj.variables),
+                "terms": sorted([sorted(lab(v) for v in t), fs(b)] for t, b in obj.items())}
+    if kind == 'dqm':
+        vs = list(obj.variables)
+        lin = [[lab(v), [fs(x) for x in obj.get_linear(v)]] for v in vs]
+        quad = []
+        for i, u in enumerate(vs):
+            for v in vs[i + 1:]:
+                q = obj.get_quadratic(u, v) if v in obj.adj[u] else None
+                if q:
+                    quad.append([lab(u), lab(v), sorted([int(a), int(b), fs(x)] for (a, b), x in q.items())])
+        return {"t": "dqm", "vars": [lab(v) for v in vs], "cases": [int(obj.num_cases(v)) for v in vs], "lin": lin, "quad": quad,
+                "adj": [[lab(u), sorted(lab(w) for w in obj.adj[u])] for u in vs]}
     raise ValueError(kind)
 
 
 def clone(obj, kind):
     if kind in ('bqm', 'ss', 'vars'):
         return pickle.loads(pickle.dumps(obj))
+    if kind == 'dqm':              # a DQM supports neither pickle nor deepcopy: rebuild it from its vectors
+        return dimod.DiscreteQuadraticModel.from_numpy_vectors(*obj.to_numpy_vectors())
     return copy.deepcopy(obj)      # QM / CQM do not pickle
 
 
@@ -107,6 +147,25 @@ def build(kind, rng):
             sub = {"vars": d["vars"], "lin": [[l, str(rng.dyadic(4, 1))] for l, _, _, _ in d["vars"]], "quad": [], "off": "0"}
             c.add_constraint_from_model(gen.build_qm(sub), rng.choice(['<=', '>=', '==']), rhs=rng.randint(0, 3), label='c%d' % k)
         return c, 'cqm'
+    if kind == 'poly':
+        labels = gen.rand_labels(rng, rng.randint(1, 4))
+        terms = {}
+        for _ in range(rng.randint(1, 5)):
+            t = tuple(rng.sample(labels, rng.randint(0, min(3, len(labels)))))
+            terms[t] = float(rng.choice(DY))
+        return dimod.BinaryPolynomial(terms, rng.choice(['SPIN', 'BINARY'])), 'poly'
+    if kind == 'dqm':
+        d = dimod.DiscreteQuadraticModel()
+        labels = gen.rand_labels(rng, rng.randint(1, 3))
+        for l in labels:
+            d.add_variable(rng.randint(1, 3), label=l)
+        for l in labels:
+            d.set_linear(l, [float(rng.choice(DY)) for _ in range(d.num_cases(l))])
+        for i, u in enumerate(labels):
+            for v in labels[i + 1:]:
+                if rng.random() < 0.6:
+                    d.set_quadratic_case(u, rng.randint(0, d.num_cases(u) - 1), v, rng.randint(0, d.num_cases(v) - 1), float(rng.choice(DY)))
+        return d, 'dqm'
     if kind == 'ss':
         vt = rng.choice(['SPIN', 'BINARY', 'INTEGER'])
         labels = gen.rand_labels(rng, rng.randint(1, 4))
@@ -184,6 +243,8 @@ class HeapLog:
             return f"(OCqm {poly_term(obj.objective)} {cons})"
         if kind == 'vars':
             return f"(OVars {clist([L(v) for v in obj])})"
+        if kind in ('poly', 'dqm'):
+            return f"(OOpaque {cnat(self.token('opaque', json.dumps(snap(obj, kind), sort_keys=True)))})"
         if kind == 'ss':
             rec = obj.record
             names = [n for n in rec.dtype.names if n not in ('sample', 'energy', 'num_occurrences', 'tag')]
@@ -233,6 +294,24 @@ def copy_calls(kind, obj, rng):
     if kind == 'vars':
         out += [("copy()", lambda o: (o.copy(), kind)), ("Variables(v)", lambda o: (Variables(o), kind))]
         return with_terms(out, {n: "CCopy" for n, _ in out})
+    if kind == 'poly':
+        m = relabel_map(rng, list(obj.variables))
+        out += [("pickle", lambda o: (pickle.loads(pickle.dumps(o)), kind)),
+                ("copy()", lambda o: (o.copy(), kind)),
+                ("relabel_variables(inplace=False)", lambda o: (o.relabel_variables(dict(m), inplace=False), kind)),
+                ("to_spin(copy=True)", lambda o: (o.to_spin(copy=True), kind)),
+                ("to_binary(copy=True)", lambda o: (o.to_binary(copy=True), kind)),
+                ("BinaryPolynomial(p)", lambda o: (dimod.BinaryPolynomial(o, o.vartype), kind))]
+        return with_terms(out, {})
+    if kind == 'dqm':
+        m = relabel_map(rng, list(obj.variables))
+        out = []                       # copy.deepcopy(dqm) raises TypeError (the Cython member cannot be pickled)
+        out += [("copy()", lambda o: (o.copy(), kind)),
+                ("relabel_variables(inplace=False)", lambda o: (o.relabel_variables(dict(m), inplace=False), kind)),
+                ("relabel_variables_as_integers(inplace=False)", lambda o: (o.relabel_variables_as_integers(inplace=False)[0], kind)),
+                ("from_numpy_vectors(to_numpy_vectors)", lambda o: (dimod.DiscreteQuadraticModel.from_numpy_vectors(
+                    *o.to_numpy_vectors()), kind))]
+        return with_terms(out, {})
     if kind in ('bqm', 'qm'):
         m = relabel_map(rng, obj.variables)
         k = rng.choice([2, -1, Fraction(1, 2)])
@@ -393,6 +472,30 @@ def edits(kind, obj, rng, is_view=False):
             out += [("record.sample[i,j]=", lambda o: o.record.sample.__setitem__((i % len(o), i % len(o.variables)), (-o.record.sample[i % len(o), i % len(o.variables)] if o.vartype is dimod.SPIN else 1 - o.record.sample[i % len(o), i % len(o.variables)])) if len(o) and len(o.variables) else None),
                     ("record.energy[i]+=", lambda o: o.record.energy.__setitem__(i % len(o), o.record.energy[i % len(o)] + 1) if len(o) else None),
                     ("record.num_occurrences[i]=", lambda o: o.record.num_occurrences.__setitem__(i % len(o), 7) if len(o) else None)]
+    if kind == 'poly':
+        vs = list(obj.variables)
+        m = relabel_map(rng, vs)
+        ts = list(obj.keys())
+        k = float(rng.choice(DY))
+        nt = frozenset(rng.sample(vs, rng.randint(0, min(2, len(vs))))) if vs else frozenset()
+        out += [("relabel_variables(inplace=True)", lambda o: o.relabel_variables(dict(m), inplace=True)),
+                ("scale", lambda o: o.scale(2.0)), ("p[t]=", lambda o: o.__setitem__(nt, k))]
+        if ts:
+            t0 = rng.choice(ts)
+            out += [("del p[t]", lambda o: o.__delitem__(t0)), ("p[t]+=", lambda o: o.__setitem__(t0, o[t0] + 1.0))]
+    if kind == 'dqm':
+        vs = list(obj.variables)
+        m = relabel_map(rng, vs)
+        k = float(rng.choice(DY))
+        u = rng.choice(vs)
+        nl = fresh_label(rng, vs)
+        out += [("relabel_variables(inplace=True)", lambda o: o.relabel_variables(dict(m), inplace=True)),
+                ("relabel_variables_as_integers(inplace=True)", lambda o: o.relabel_variables_as_integers(inplace=True)),
+                ("set_linear_case", lambda o: o.set_linear_case(u, 0, k)),
+                ("add_variable", lambda o: o.add_variable(2, label=nl))]
+        if len(vs) > 1:
+            w = rng.choice([x for x in vs if x != u])
+            out += [("set_quadratic_case", lambda o: o.set_quadratic_case(u, 0, w, 0, k))]
     if kind == 'vars':
         vs = list(obj)
         nl = fresh_label(rng, vs)
@@ -415,6 +518,11 @@ class Handle:
 
 
 def run_case(c):
+    if c["kind"] == "ssalias":
+        import w_c14
+        evs, fail, feats, nt = w_c14.run_alias_events(c)
+        feats["kind"] = "ssalias"
+        return {"coq": clist(evs), "check_fn": "alias_check", "py_fail": fail, "features": feats, "nontrivial": nt}
     rng = wlib.Rng(c["seed"])
     feats = {"kind": c["kind"]}
     intern = {}
